@@ -150,28 +150,26 @@ Fixpoint build (s : spec) : res img :=
       end
   end.
 
-(* absolute_address: "if self.parent: return self.parent.absolute_address + self.offset; return self.offset".
-   BinaryImage defines __len__, so a parent of length 0 is FALSY and is treated as "no parent" (faithful, finding C16-F3).
-   child_base is the base that the children of i see. *)
-Definition child_base (base : Z) (i : img) : Z := if ilen i =? 0 then 0 else base + ioff i.
-
 (* absolute_address / len of every node, depth first in sub_images order *)
 Fixpoint shape (base : Z) (i : img) : list (Z * Z) :=
   match i with
-  | Img sz al off bin pat subs => (base + off, ilen i) :: flat_map (shape (child_base base i)) subs
+  | Img sz al off bin pat subs => (base + off, ilen i) :: flat_map (shape (base + off)) subs
   end.
 
 (* ---------- save_binary_image HEX / S19: ordered add_binary(..., overwrite=True) calls ---------- *)
-Fixpoint writes (base : Z) (i : img) : list (Z * list N) :=
+Definition has_pat (pat : option pattern) : bool := match pat with Some _ => true | None => false end.
+
+(* add_into_binary(bin_image, filled): once an ancestor has written data (pattern or own binary) a node writes its
+   whole extent (zeros without a pattern), as export() does; empty blocks are skipped *)
+Fixpoint writes (filled : bool) (base : Z) (i : img) : list (Z * list N) :=
   match i with
   | Img sz al off bin pat subs =>
       let a := base + off in
-      (match pat with
-       | Some p => match pattern_block p (Z.to_nat (ilen i)) with Ok b => [(a, b)] | Err _ => [] end
-       | None => []
-       end)
+      (if (has_pat pat || filled) && negb (ilen i =? 0) then
+         match pattern_block (pat_or_zeros pat) (Z.to_nat (ilen i)) with Ok b => [(a, b)] | Err _ => [] end
+       else [])
       ++ (if isnil bin then [] else [(a, bin)])
-      ++ flat_map (writes (child_base base i)) subs
+      ++ flat_map (writes (filled || has_pat pat || negb (isnil bin)) a) subs
   end.
 
 (* content of the BinFile after the calls: the last write covering an address wins *)
@@ -203,7 +201,7 @@ Definition ws_lo (ws : list (Z * list N)) : Z :=
 Definition ws_hi (ws : list (Z * list N)) : Z :=
   match ws with [] => 0 | (s, d) :: t => fold_left (fun m w => Z.max m (fst w + zlen (snd w))) t (s + zlen d) end.
 
-(* empty blocks carry no address range (a zero-length pattern block may sit anywhere, see C16-F3) *)
+(* empty blocks carry no address range *)
 Definition nonempty_ws (ws : list (Z * list N)) : list (Z * list N) :=
   filter (fun w => negb (isnil (snd w))) ws.
 
@@ -211,7 +209,7 @@ Definition segments (ws : list (Z * list N)) : list (Z * list N) :=
   let ne := nonempty_ws ws in
   group (ws_lo ne) (scan ws (Z.to_nat (ws_hi ne - ws_lo ne)) (ws_lo ne)).
 
-Definition hex_segments (i : img) : list (Z * list N) := segments (writes 0 i).
+Definition hex_segments (i : img) : list (Z * list N) := segments (writes false 0 i).
 
 (* ---------- load_binary_image: segments -> "Segment i" children, then update_offsets ---------- *)
 Definition seg_img (s : Z * list N) : img := Img (zlen (snd s)) 1 (fst s) (snd s) None [].
@@ -309,9 +307,3 @@ Definition run_case (fn : Z) (args : list value) : value :=
               end
   | _, _ => VErr E_BADCASE
   end.
-
-Example ex_d11_shape :
-  (* BinaryImage("a", size=4, binary=8 bytes): len 4, validate raises (D11 repaired), export still 8 bytes *)
-  run_case 1 [VList [VInt 4; VInt 1; VInt 0; VBytes [0;1;2;3;4;5;6;7]%N; VList []; VList []]]
-  = VList [VInt 4; VInt 0; VBytes [0;1;2;3;4;5;6;7]%N; VList [VList [VInt 0; VInt 4]]].
-Proof. vm_compute. reflexivity. Qed.
